@@ -34,7 +34,8 @@ Record hdr := {
   h_mode : N;      (* tar mode & 07777 *)
   h_uid : N; h_gid : N;
   h_sum : N;       (* KReg: content id; KSym: id of the link target; otherwise unused *)
-  h_link : path    (* KLink: the target path *)
+  h_link : path    (* KLink: the target path; KSym: the target string split at "/" (verbatim: a
+                      leading "" component = an absolute target, ".." and "." as written) *)
 }.
 
 Record pkg := { p_name : string; p_origin : string; p_replaces : list string; p_files : list hdr }.
@@ -46,7 +47,7 @@ Inductive node :=
     (* own = Some i: the bytes are package i's (lazy: the node's tar entry names package i);
        own = None: the file was there before the install (no tar entry);
        data = false: such a file with no bytes (tarfs: node.data == nil) *)
-| NSym (tgt : N) (own : option nat)
+| NSym (tgt : N) (own : option nat) (lnk : path)   (* lnk: the target string split at "/" *)
 | NOther.
 
 Definition fsmap := list (path * node).
@@ -129,7 +130,7 @@ Fixpoint walk_dirs (m : fsmap) (ps : list path) : pstate :=
       match fs_get m q with
       | None => PMissing
       | Some (NDir _) => walk_dirs m more
-      | Some (NSym _ _) => PSymlinked
+      | Some (NSym _ _ _) => PSymlinked
       | Some _ => PNotDir
       end
   end.
@@ -145,7 +146,7 @@ Fixpoint mkdir_all (m : fsmap) (ps : list path) (perm : N) : fsmap * option ierr
       match fs_get m q with
       | None => mkdir_all (fs_set m q (NDir perm)) more perm
       | Some (NDir _) => mkdir_all m more perm
-      | Some (NSym _ _) => (m, Some EUnsupported)
+      | Some (NSym _ _ _) => (m, Some EUnsupported)
       | Some _ => (m, Some EOther)
       end
   end.
@@ -156,7 +157,7 @@ Definition with_fs (s : st) (m : fsmap) : st := {| s_fs := m; s_if := s_if s |}.
 
 Definition file_node (i : nat) (h : hdr) : node :=
   match h_kind h with
-  | KSym => NSym (h_sum h) (Some i)
+  | KSym => NSym (h_sum h) (Some i) (h_link h)
   | _ => NFile (h_sum h) (h_mode h) (Some i) true
   end.
 
@@ -204,7 +205,7 @@ Definition step_lazy_file (pkgs : list pkg) (i : nat) (me : pkg) (s : st) (h : h
   let p := h_path h in
   let same_link :=
     match h_kind h, dir_state (s_fs s) (parent p), fs_get (s_fs s) p with
-    | KSym, PDir, Some (NSym t _) => N.eqb t (h_sum h)
+    | KSym, PDir, Some (NSym t _ _) => N.eqb t (h_sum h)
     | _, _, _ => false
     end in
   if same_link then IOk (s, true)
@@ -218,7 +219,7 @@ Definition step_lazy_file (pkgs : list pkg) (i : nat) (me : pkg) (s : st) (h : h
     match fs_get (s_fs s) p with
     | None => IOk (set_file s i h, true)
     | Some (NFile gs _ (Some j) _) => decide j gs
-    | Some (NSym gs (Some j)) => decide j gs
+    | Some (NSym gs (Some j) _) => decide j gs
     | Some (NFile gs _ None true) => if N.eqb gs (h_sum h) then IOk (s, true) else IErr EOther s
     | Some _ => IErr EOther s       (* "conflicting file has no tar entry" *)
     end).
@@ -252,7 +253,7 @@ Definition step_stream_sym (i : nat) (s : st) (h : hdr) : step_res :=
   need_dir s (parent p) (fun _ =>
     match fs_get (s_fs s) p with
     | None => IOk (set_file s i h, true)
-    | Some (NSym t _) => if N.eqb t (h_sum h) then IOk (s, false) else IErr EOther s
+    | Some (NSym t _ _) => if N.eqb t (h_sum h) then IOk (s, false) else IErr EOther s
     | Some _ => IErr EOther s
     end).
 
@@ -318,6 +319,318 @@ Inductive result := RDone (f : final) | RFail (e : ierr) (s : st).
 
 Definition install (b : backend) (pkgs : list pkg) (init : fsmap) : result :=
   match install_all b pkgs 0 {| s_fs := init; s_if := [] |} [] pkgs with
+  | IErr e s => RFail e s
+  | IOk (s, all) => RDone {| f_fs := s_fs s; f_if := s_if s; f_files := all; f_db := db_from (s_if s) 0 all |}
+  end.
+
+(* ==== symbolic links on the way ============================================
+   [step] declines (EUnsupported) whenever a path runs through a symbolic link.
+   [step_g] below is the transcription of the same code WITH the path
+   resolution of the three filesystems (tarfs/memfs getNode, MkdirAll, openFile,
+   Readlink, Symlink, Link, Remove; the directory backend = the kernel + the
+   in-memory overlay), on the flat map: a node is identified with its canonical
+   path (no directory is reachable under two names except through links).
+   [step_l] = [step] where it answers, [step_g] where it declines.  Still
+   declined: hard links on the directory backend whose target is reached through
+   a link (linkat does not follow), absolute targets on the directory backend
+   (they resolve against the HOST root), a target that resolves to the root. *)
+
+(* filepath.Clean of a relative path, on components ([st] = stack, top first) *)
+Fixpoint clean_stack (st : list string) (ps : path) : path :=
+  match ps with
+  | [] => rev st
+  | c :: r =>
+      if String.eqb c "" || String.eqb c "." then clean_stack st r
+      else if String.eqb c ".." then
+        match st with
+        | [] => clean_stack [".."] r
+        | t :: st' => if String.eqb t ".." then clean_stack (".." :: st) r else clean_stack st' r
+        end
+      else clean_stack (c :: st) r
+  end.
+Definition clean_rel (ps : path) : path := clean_stack [] ps.
+
+(* filepath.IsAbs of the target string *)
+Definition is_abs_target (l : path) : bool :=
+  match l with c :: _ :: _ => String.eqb c "" | _ => false end.
+(* linkTarget, or filepath.Join(traversed, linkTarget) *)
+Definition link_dest (trav lnk : path) : path :=
+  if is_abs_target lnk then lnk else clean_rel (trav ++ lnk).
+
+Definition node_at (m : fsmap) (q : path) : option node :=
+  match q with [] => Some (NDir 493) | _ => fs_get m q end.
+Definition is_dir_at (m : fsmap) (q : path) : bool :=
+  match node_at m q with Some (NDir _) => true | _ => false end.
+
+Inductive nres := NFound (q : path) | NNotExist | NTooDeep.
+
+(* getNodeCountLinks: [d] = maxLinks - linkDepth; the result is the canonical
+   path of the node (never a symbolic link: the last component is resolved too) *)
+Fixpoint get_node (d : nat) (m : fsmap) (parts : path) {struct d} : nres :=
+  (fix walk (cur trav parts : path) {struct parts} : nres :=
+     match parts with
+     | [] => NFound cur
+     | c :: rest =>
+         if String.eqb c "" then walk cur trav rest
+         else if negb (is_dir_at m cur) then NNotExist          (* node.children == nil *)
+         else match fs_get m (cur ++ [c]) with
+              | None => NNotExist
+              | Some (NSym _ _ lnk) =>
+                  match d with
+                  | O => NTooDeep
+                  | S d' =>
+                      match get_node d' m (link_dest trav lnk) with
+                      | NFound q => walk q (trav ++ [c]) rest
+                      | e => e
+                      end
+                  end
+              | Some _ => walk (cur ++ [c]) (trav ++ [c]) rest
+              end
+     end) [] [] parts.
+Definition max_links : nat := 40.
+Definition gn (m : fsmap) (p : path) : nres := get_node max_links m p.
+
+Definition base_of (p : path) : string := last p "".
+(* getNode(filepath.Dir(name)) must be a directory *)
+Definition resolve_parent (m : fsmap) (p : path) : option path :=
+  match gn m (parent p) with
+  | NFound q => if is_dir_at m q then Some q else None
+  | _ => None
+  end.
+
+(* MkdirAll of tarfs and memfs: a symbolic link on the way is replaced by what
+   it resolves to, which must be a directory *)
+Fixpoint mkdir_g (m : fsmap) (cur trav parts : path) (perm : N) : fsmap * bool :=
+  match parts with
+  | [] => (m, true)
+  | c :: rest =>
+      if String.eqb c "" then mkdir_g m cur trav rest perm
+      else
+        let loc := cur ++ [c] in
+        match fs_get m loc with
+        | None => mkdir_g (fs_set m loc (NDir perm)) loc (trav ++ [c]) rest perm
+        | Some (NDir _) => mkdir_g m loc (trav ++ [c]) rest perm
+        | Some (NSym _ _ lnk) =>
+            match gn m (link_dest trav lnk) with
+            | NFound q => if is_dir_at m q then mkdir_g m q (trav ++ [c]) rest perm else (m, false)
+            | _ => (m, false)
+            end
+        | Some _ => (m, false)
+        end
+  end.
+
+Definition step_dir_g (s : st) (h : hdr) : step_res :=
+  match mkdir_g (s_fs s) [] [] (h_path h) (perm_of (h_mode h)) with
+  | (m, true) => IOk (with_fs s m, true)
+  | (m, false) => IErr EOther (with_fs s m)
+  end.
+
+(* the node is written at [loc]; installedFiles is keyed by the header's name *)
+Definition set_at (s : st) (i : nat) (h : hdr) (loc : path) : st :=
+  {| s_fs := fs_set (s_fs s) loc (file_node i h);
+     s_if := match h_kind h with KReg => if_set (s_if s) (h_path h) i | _ => s_if s end |}.
+
+(* Readlink(name) answers the header's own target *)
+Definition same_link_g (s : st) (h : hdr) : bool :=
+  match gn (s_fs s) (parent (h_path h)) with
+  | NFound q =>
+      match fs_get (s_fs s) (q ++ [base_of (h_path h)]) with
+      | Some (NSym t _ _) => N.eqb t (h_sum h)
+      | _ => false
+      end
+  | _ => false
+  end.
+
+(* tarfs: WriteHeader for TypeReg / TypeSymlink. writeHeader looks the last
+   component up in the resolved parent WITHOUT following it *)
+Definition step_lazy_g (pkgs : list pkg) (i : nat) (me : pkg) (s : st) (h : hdr) : step_res :=
+  let p := h_path h in
+  if kind_eqb (h_kind h) KSym && same_link_g s h then IOk (s, true)
+  else match resolve_parent (s_fs s) p with
+  | None => IErr EOther s
+  | Some q =>
+      let loc := q ++ [base_of p] in
+      let decide j gs :=
+        match decide_lazy (nth j pkgs no_pkg) me gs (h_sum h) with
+        | KeepOld => IOk (s, true)
+        | Overwrite => IOk (set_at s i h loc, true)
+        | Conflict => IErr (EConflict p) s
+        end in
+      match fs_get (s_fs s) loc with
+      | None => IOk (set_at s i h loc, true)
+      | Some (NFile gs _ (Some j) _) => decide j gs
+      | Some (NSym gs (Some j) _) => decide j gs
+      | Some (NFile gs _ None true) => if N.eqb gs (h_sum h) then IOk (s, true) else IErr EOther s
+      | Some _ => IErr EOther s
+      end
+  end.
+
+(* Link(old, new): the target is resolved completely, the new name is looked
+   up in the resolved parent *)
+Definition step_link_g (b : backend) (s : st) (h : hdr) : step_res :=
+  match resolve_parent (s_fs s) (h_path h) with
+  | None => IErr EOther s
+  | Some q =>
+      let loc := q ++ [base_of (h_path h)] in
+      match gn (s_fs s) (h_link h) with
+      | NFound t =>
+          match node_at (s_fs s) t with
+          | Some (NFile sm md ow dt) =>
+              match b with
+              | StreamDir => if path_eqb t (h_link h) then
+                               match fs_get (s_fs s) loc with
+                               | Some _ => IErr EOther s
+                               | None => IOk (with_fs s (fs_set (s_fs s) loc (NFile sm md ow dt)), true)
+                               end
+                             else IErr EUnsupported s      (* linkat(2) links the symbolic link itself *)
+              | _ => match fs_get (s_fs s) loc with
+                     | Some _ => IErr EOther s
+                     | None => IOk (with_fs s (fs_set (s_fs s) loc (NFile sm md ow dt)), true)
+                     end
+              end
+          | _ => IErr EUnsupported s
+          end
+      | _ => IErr EOther s
+      end
+  end.
+
+(* memfs openFile(name, O_CREATE|O_EXCL|O_WRONLY) once the last component is a
+   symbolic link: the link is FOLLOWED (O_EXCL is not looked at) and the file is
+   created where the chain ends *)
+Inductive ores := OCreate (loc : path) | OErr | ODecline.
+Fixpoint open_create (fuel : nat) (m : fsmap) (name : path) : ores :=
+  match fuel with
+  | O => OErr                                                   (* "too many links" *)
+  | S f =>
+      match clean_rel name with
+      | [] => ODecline
+      | _ =>
+          match resolve_parent m name with
+          | None => OErr
+          | Some q =>
+              let loc := q ++ [base_of name] in
+              match fs_get m loc with
+              | None => OCreate loc
+              | Some (NSym _ _ lnk) => open_create f m (link_dest (parent name) lnk)
+              | Some (NDir _) => OErr                          (* "is a directory" *)
+              | Some _ => ODecline
+              end
+          end
+      end
+  end.
+
+(* streaming: TypeReg. writeOneFile's Stat and Open FOLLOW a link at the name:
+   the bytes compared are those of the file the name resolves to, the owner
+   looked up is installedFiles[name], Remove deletes the entry of the name itself *)
+Definition step_stream_reg_g (b : backend) (pkgs : list pkg) (i : nat) (me : pkg) (s : st) (h : hdr) : step_res :=
+  let p := h_path h in
+  let m := s_fs s in
+  match gn m p with
+  | NFound q =>
+      match node_at m q with
+      | Some (NFile gs _ _ _) =>
+          let owner := match if_get (s_if s) p with Some j => Some (nth j pkgs no_pkg) | None => None end in
+          match decide_stream owner me (N.eqb gs (h_sum h)) with
+          | SDec KeepOld => IOk (s, true)
+          | SDec Overwrite =>
+              match resolve_parent m p with
+              | Some qp => IOk (set_at s i h (qp ++ [base_of p]), true)
+              | None => IErr EUnsupported s
+              end
+          | SDec Conflict => IErr (EConflict p) s
+          | SErrExists | SErrNotOurs => IErr EOther s
+          end
+      | Some (NDir _) => IErr EOther s                         (* "is a directory" *)
+      | _ => IErr EUnsupported s
+      end
+  | _ =>
+      (* Stat failed: OpenFile(O_CREATE|O_EXCL) *)
+      match resolve_parent m p with
+      | None => IErr EOther s
+      | Some qp =>
+          let loc := qp ++ [base_of p] in
+          match fs_get m loc with
+          | None => IOk (set_at s i h loc, true)
+          | Some (NSym _ _ lnk) =>
+              if match b with StreamDir => is_abs_target lnk | _ => false end then IErr EUnsupported s else
+              match open_create max_links m (link_dest (parent p) lnk) with
+              | OCreate loc' =>
+                  match b with
+                  | StreamDir =>
+                      (* the overlay has created the file, open(2) with O_EXCL then
+                         fails on the dangling link: an entry that cannot be read stays *)
+                      IErr EOther (with_fs s (fs_set m loc' NOther))
+                  | _ => IOk (set_at s i h loc', true)        (* written THROUGH the link *)
+                  end
+              | OErr => IErr EOther s
+              | ODecline => IErr EUnsupported s
+              end
+          | Some _ => IErr EUnsupported s
+          end
+      end
+  end.
+
+(* streaming: TypeSymlink *)
+Definition step_stream_sym_g (i : nat) (s : st) (h : hdr) : step_res :=
+  if same_link_g s h then IOk (s, false)
+  else match resolve_parent (s_fs s) (h_path h) with
+  | None => IErr EOther s
+  | Some q =>
+      let loc := q ++ [base_of (h_path h)] in
+      match fs_get (s_fs s) loc with
+      | None => IOk (set_at s i h loc, true)
+      | Some _ => IErr EOther s
+      end
+  end.
+
+Fixpoint has_abs_link (m : fsmap) : bool :=
+  match m with
+  | [] => false
+  | (_, NSym _ _ lnk) :: m' => is_abs_target lnk || has_abs_link m'
+  | _ :: m' => has_abs_link m'
+  end.
+
+Definition step_g (b : backend) (pkgs : list pkg) (i : nat) (me : pkg) (s : st) (h : hdr) : step_res :=
+  if match b with StreamDir => has_abs_link (s_fs s) | _ => false end then IErr EUnsupported s else
+  match h_kind h with
+  | KDir => step_dir_g s h
+  | KLink => step_link_g b s h
+  | KReg => if is_lazy b then step_lazy_g pkgs i me s h else step_stream_reg_g b pkgs i me s h
+  | KSym => if is_lazy b then step_lazy_g pkgs i me s h else step_stream_sym_g i s h
+  end.
+
+(* the model the correspondence runs: [step] where it answers, [step_g] where
+   it declines *)
+Definition step_l (b : backend) (pkgs : list pkg) (i : nat) (me : pkg) (s : st) (h : hdr) : step_res :=
+  match step b pkgs i me s h with
+  | IErr EUnsupported _ => step_g b pkgs i me s h
+  | r => r
+  end.
+
+Fixpoint install_files_l (b : backend) (pkgs : list pkg) (i : nat) (me : pkg)
+    (s : st) (acc : list hdr) (hs : list hdr) : ires (st * list hdr) :=
+  match hs with
+  | [] => IOk (s, acc)
+  | h :: more =>
+      match step_l b pkgs i me s h with
+      | IErr e s' => IErr e s'
+      | IOk (s', app) => install_files_l b pkgs i me s' (if app then acc ++ [h] else acc) more
+      end
+  end.
+
+Fixpoint install_all_l (b : backend) (pkgs : list pkg) (i : nat) (s : st)
+    (done : list (list hdr)) (todo : list pkg) : ires (st * list (list hdr)) :=
+  match todo with
+  | [] => IOk (s, done)
+  | me :: more =>
+      match install_files_l b pkgs i me s [] (p_files me) with
+      | IErr e s' => IErr e s'
+      | IOk (s', files) => install_all_l b pkgs (S i) s' (done ++ [files]) more
+      end
+  end.
+
+Definition install_l (b : backend) (pkgs : list pkg) (init : fsmap) : result :=
+  match install_all_l b pkgs 0 {| s_fs := init; s_if := [] |} [] pkgs with
   | IErr e s => RFail e s
   | IOk (s, all) => RDone {| f_fs := s_fs s; f_if := s_if s; f_files := all; f_db := db_from (s_if s) 0 all |}
   end.
